@@ -623,34 +623,37 @@ func TestVerif(t *testing.T) {
 		for ci := range spec.Configs {
 			c := &spec.Configs[ci]
 			totalCfg++
-			owner := int64(-1)
+			// a heavy config is owned by one shard; the other shards do not even start it (it is accepted by
+			// construction of the table, the owner checks that) but build the same work items
+			owner, probe := int64(-1), true
 			if c.Heavy {
 				owner = int64(len(items))
-				if !r.Mine(owner) {
-					// accepted by construction of the table (the owning shard checks it); nothing to run here
-					items = append(items, work{spec: spec, cfg: c, ci: ci, owner: owner})
+				probe = r.Mine(owner)
+			}
+			if probe {
+				t0 := time.Now()
+				in, reason := newInstance(spec, c)
+				if os.Getenv("VERIF_DEBUG") != "" && time.Since(t0) > 50*time.Millisecond {
+					fmt.Printf("SLOW START %s %s: %v\n", spec.Type, c.JSON, time.Since(t0))
+				}
+				if in == nil {
+					if c.Heavy {
+						panic("c13: a config marked Heavy must be accepted: " + c.JSON + ": " + reason)
+					}
+					if r.R.Shard == 0 {
+						r.Count(spec.Type+".configs_rejected", 1)
+						if os.Getenv("VERIF_DEBUG") != "" {
+							fmt.Printf("REJECTED %s %s: %s\n", spec.Type, c.JSON, clip(firstLine(reason)))
+						}
+					}
 					continue
 				}
+				in.stop()
 			}
-			t0 := time.Now()
-			in, reason := newInstance(spec, c)
-			if os.Getenv("VERIF_DEBUG") != "" && time.Since(t0) > 50*time.Millisecond {
-				fmt.Printf("SLOW START %s %s: %v\n", spec.Type, c.JSON, time.Since(t0))
-			}
-			if in == nil {
-				if r.R.Shard == 0 {
-					r.Count(spec.Type+".configs_rejected", 1)
-					if os.Getenv("VERIF_DEBUG") != "" {
-						fmt.Printf("REJECTED %s %s: %s\n", spec.Type, c.JSON, clip(firstLine(reason)))
-					}
-				}
-				continue
-			}
-			in.stop()
 			extra := append(append([]string{}, c.Extra...), spec.Extra...)
 			docs, tier := genEvents(c.Keys, extra, capPerConfig, otherTier, tiers)
 			alpha := seqAlphabet(spec, c, r.Thorough())
-			if r.R.Shard == 0 || c.Heavy {
+			if r.R.Shard == 0 {
 				r.Count(spec.Type+".configs_accepted", 1)
 				r.Count(spec.Type+".single_events", int64(len(docs)))
 				r.Count("tier."+tier, 1)
